@@ -135,6 +135,7 @@ func verbLevelIn(name string, levels map[string]int64) string {
 
 func checkC01(c *Ctx) {
 	r := c.R
+	r.Rule("R10.3", "(shared with C10) the threshold a logger holds is the level it was given: newentry / SetLevel / Level() store and return the level value itself (nothing-else rule on creation and on the level field)")
 	r.Rule("R01.8", "the package-level verbs emit for every kind of default logger: each spine function that dispatches on the dynamic type of the default logger has an emitting arm for *logimp and for *Entry (what New() returns and what its chained setters return)")
 	r.Rule("R03.1", "(shared with C03) an admitted call produces output: the destination selected for a severity is never an empty per-level list while the documented routing names another (the routing decision function equals the documented one)")
 	r.Rule("R17.3", "(shared with C17) a refused registration leaves the level tables untouched")
@@ -165,6 +166,7 @@ func checkC01(c *Ctx) {
 		c01Verbs(c, p, m, tags)
 		c01DebugMode(c, p)
 		c01DefaultKinds(c, p, m, "R01.8")
+		c10Creation(c, p, m)
 		c03Routing(c, p, m)
 		c17Register(c, p, m)
 	}
@@ -831,6 +833,33 @@ func c01DebugMode(c *Ctx, p *Prog) {
 	}
 	if n == 0 {
 		r.OkTrivial("R01.7", "SetDebugMode:none", "-", "the package never switches debug mode")
+	}
+	// the gate reads the CURRENT debug switch: the state holder asked for the debug mode is obtained at decision time
+	// (states.Env() called in the gate), not a holder captured earlier in a package-level variable (the application can
+	// install another holder, and SetLevel(Debug) switches the mode through the current one)
+	if en := p.Method(p.Slog, "Level", "Enabled"); en != nil {
+		nq := 0
+		for g := range staticReach([]*ssa.Function{en}, func(f *ssa.Function) bool { return f.Pkg != p.Slog }) {
+			for _, cs := range callsIn(g) {
+				if !cs.Common().IsInvoke() || nm(cs.Common().Method) != "GetDebugMode" {
+					continue
+				}
+				nq++
+				recv := strip(cs.Common().Value)
+				fresh := false
+				if call, ok := recv.(*ssa.Call); ok {
+					if cal := calleeOf(call); cal != nil && cal.Name() == "Env" && cal.Pkg != nil && strings.HasPrefix(cal.Pkg.Pkg.Path(), "github.com/hedzr/is") {
+						fresh = true
+					}
+				}
+				r.Check(fresh, "R01.7", "debug-switch:"+shortName(g), p.Pos(instrPos(cs)), "the debug mode is read from states.Env() at decision time",
+					"the gate reads the debug mode from "+recv.String()+" instead of the current states.Env(): once another state holder is installed, debug mode switched on (also by SetLevel(Debug) on any logger) no longer admits Debug records")
+			}
+		}
+		if nq == 0 {
+			// the package-level accessor form is.DebugMode() reads the current holder by itself
+			r.Ok("R01.7", "debug-switch", p.FuncPos(en), "the gate does not query a state holder object directly")
+		}
 	}
 }
 
